@@ -26,7 +26,9 @@ MANIFEST = {
             "with broadcast for all noise patterns; noise iff; acceptance iff equal lengths or length-1 right operand, rejection is "
             "ValueError; scalars broadcast; x[sl] holds exactly the samples at CPython's slice indices in every polarisation of signal "
             "and noise, accepted iff non-empty; x[i] iff -n<=i<n (IndexError otherwise); copy()=equal object; slice length formula, "
-            "exactness and index range. Tie: translator + exact differential run of the compiled model against the real objects on random "
+            "exactness and index range; domain transforms x('w'|'f'|'t', shift) compose with C02's Fourier model (payload = Fourier.call, "
+            "result well formed, same class / n_pol / length / noise presence, dtype complex) and are a node of the expression language "
+            "covered by eval_wf / eval_shape. Tie: translator + exact differential run of the compiled model against the real objects on random "
             "programs (depth <= 6 / 10), every constructor form and operand kind, all slice triples for n <= 7.",
     "note": "Trusted: Lean kernel, translator tools/extractors/container.py, harness, numpy/CPython semantics mirrored by the model "
             "(np.array, result_type on {int64,float64,complex128}, broadcasting, slice.indices). Monitored, not proved: operands "
@@ -36,12 +38,14 @@ MANIFEST = {
     "design": "§5 C01",
 }
 GEN = ["Container"]
-RULE = ("case = program (leaf constructors + expression tree over + - * reflected/scalar forms, slices, int index, copy) "
+RULE = ("case = program (leaf constructors + expression tree over + - * reflected/scalar forms, slices, int index, copy, "
+        "domain transforms in ~30% of the programs) "
         "on one class/layout; non-trivial = program that evaluates successfully with >= 2 operations, distinct by "
         "(class, layout, length, operator multiset, noise pattern of leaves, dtype tags, final length)")
 PARTIAL = [
     "operands bit-for-bit unchanged and result shares no memory with operands: runtime monitors on every node, not theorems",
-    "domain transforms x('w'), x('t') keep class / n_pol / length / noise presence / contract: oracle only (the FFT itself is C02)",
+    "domain transforms: class / n_pol / length / noise presence / contract are theorems (transform_wf, transform_shape, eval_wf, eval_shape, "
+    "composed with C02's Fourier model); float rounding of the FFT values is outside any theorem (values compared at 1e-9*scale*N)",
     "`*` is held only to the shape contract (the code scales .signal and keeps/propagates .noise unscaled): DESIGN §7",
     "float rounding: data are integers / Gaussian integers with magnitudes < 2^45 so int64, float64 and complex128 arithmetic is exact",
 ]
@@ -173,7 +177,20 @@ def enc_expr(t):
         return f"slice {enc_expr(t[1])} {enc_opt_int(t[2])} {enc_opt_int(t[3])} {enc_opt_int(t[4])}"
     if op == "copy":
         return f"copy {enc_expr(t[1])} {enc_opt_int(t[2])}"
+    if op == "transform":
+        return f"transform {enc_expr(t[1])} {t[2]} {1 if t[3] else 0}"
     raise ValueError(op)
+
+
+def has_transform(t):
+    op = t[0]
+    if op == "transform":
+        return True
+    if op in ("var", "mk"):
+        return False
+    if op in BINOPS:
+        return has_transform(t[1]) or has_transform(t[2])
+    return has_transform(t[1])
 
 
 def modelable(t):
@@ -196,11 +213,32 @@ def modelable(t):
 # ------------------------------------------------------------------------------------------------
 
 def _gi(v):
+    """exact Gaussian integer when the sample is one (always, before the first domain transform), else floats"""
     z = complex(v)
+    if z.real != z.real or z.imag != z.imag or abs(z.real) == float("inf") or abs(z.imag) == float("inf"):
+        raise ArithmeticError(f"non-finite sample {v!r}")
     re, im = int(z.real), int(z.imag)
     if re != z.real or im != z.imag:
-        raise ArithmeticError(f"non-integer sample {v!r}")
+        return (z.real, z.imag)
     return (re, im)
+
+
+def _exact(rows):
+    return all(isinstance(c, int) for r in rows for z in r for c in z)
+
+
+def differs(a, b):
+    """row sets differ: exactly when both are integer-valued, else beyond 1e-9 of their magnitude (float samples
+    appear only downstream of a domain transform)"""
+    if a is None or b is None:
+        return (a is None) != (b is None)
+    if len(a) != len(b) or any(len(x) != len(y) for x, y in zip(a, b)):
+        return True
+    if _exact(a) and _exact(b):
+        return a != b
+    scale = max([1.0] + [abs(c) for rows in (a, b) for r in rows for z in r for c in z])
+    tol = 1e-9 * scale
+    return any(abs(p[0] - q[0]) > tol or abs(p[1] - q[1]) > tol for x, y in zip(a, b) for p, q in zip(x, y))
 
 
 def _rows(a):
@@ -420,12 +458,12 @@ class Eval:
             sn = snap(x)
             if c["cls"] == "O" and sn[1] != npol:
                 self.v("C01:ctor-npol", f"n_pol={sn[1]}, expected {npol} for input {shape_of(c['sig'])} n_pol={c['npol']}")
-            if sn[3] != rows:
+            if differs(sn[3], rows):
                 self.v(f"C01:ctor-samples:{c['cls']}:{c['sig']['shape']}:npol={c['npol']}",
                        f"signal rows {str(sn[3])[:120]} expected {str(rows)[:120]}")
             if (sn[4] is None) != (nrows is None):
                 self.v("C01:ctor-noise-presence", f"noise given={c['noise'] is not None} but result noise is {'None' if sn[4] is None else 'present'}")
-            elif nrows is not None and sn[4] != nrows:
+            elif nrows is not None and differs(sn[4], nrows):
                 self.v(f"C01:ctor-noise-samples:{c['cls']}:{c['sig']['shape']}:npol={c['npol']}",
                        f"noise rows {str(sn[4])[:120]} expected {str(nrows)[:120]}")
         return x
@@ -515,7 +553,7 @@ class Eval:
             tbb = _bcast(tb, len(sa[3]), la)
             f = _zadd if base == "add" else (_zsub if base == "sub" else (lambda x, y: _zsub(y, x)))
             want = [[f(x, y) for x, y in zip(ra, rb)] for ra, rb in zip(ta, tbb)]
-            if total(sr) != want:
+            if differs(total(sr), want):
                 self.v(f"C01:total-field:{op}:noise={'a' if sa[4] is not None else '-'}{'b' if nb_present else '-'}"
                        f":{'bcast' if la != lb else 'same'}",
                        f"{name} {op}: total field {str(total(sr))[:150]} expected {str(want)[:150]}")
@@ -580,14 +618,50 @@ class Eval:
             self.v(f"C01:{what}-npol", f"{desc}: {len(sa[3])} polarisation(s) -> {len(sr[3])}")
             return r
         want = [[row[i] for i in idx] for row in sa[3]]
-        if sr[3] != want:
+        if differs(sr[3], want):
             self.v(f"C01:{what}-samples:npol={len(sa[3])}", f"{desc}: signal {str(sr[3])[:150]} expected {str(want)[:150]}")
         if (sr[4] is None) != (sa[4] is None):
             self.v(f"C01:{what}-noise-presence", f"{desc}: noise {'lost' if sr[4] is None else 'appeared'}")
         elif sa[4] is not None:
             wn = [[row[i] for i in idx] for row in sa[4]]
-            if sr[4] != wn:
+            if differs(sr[4], wn):
                 self.v(f"C01:{what}-noise-samples:npol={len(sa[3])}", f"{desc}: noise {str(sr[4])[:150]} expected {str(wn)[:150]}")
+        return r
+
+    def xform(self, a, dom, shift):
+        """a(domain, shift) as a program node: same class / n_pol / shape / noise presence, contract, monitors.
+        Sample values are C02's subject; here they are tied to the composed Lean model by the correspondence run."""
+        name = type(a).__name__
+        g = Guard([a])
+        self.feat.add(f"op:transform:{dom}:{'shift' if shift else 'noshift'}")
+        try:
+            with g:
+                r = a(dom, shift)
+        except Exception as e:  # noqa
+            for m in g.changed():
+                self.v("C01:transform-operand-modified", f"{name}('{dom}', {shift}) (raised): {m}")
+            if dom in ("w", "f", "t"):
+                self.v(f"C01:transform-raises:{dom}", f"{name}('{dom}', {shift}) raised {e!r}")
+            raise
+        self.okops += 1
+        if dom not in ("w", "f", "t"):
+            self.v("C01:transform-bad-domain-accepted", f"{name}('{dom}') did not raise")
+            return r
+        bad = contract(r, name)
+        for m in bad:
+            self.v(f"C01:transform-contract:{dom}", f"{name}('{dom}', {shift}): {m}")
+        for m in g.changed():
+            self.v("C01:transform-operand-modified", f"{name}('{dom}', {shift}): {m}")
+        for m in g.shared(r):
+            self.v("C01:transform-shares-memory", f"{name}('{dom}', {shift}): {m}")
+        if bad:
+            return r
+        if r.signal.shape != a.signal.shape:
+            self.v(f"C01:transform-shape:{dom}", f"{name}('{dom}', {shift}): shape {a.signal.shape} -> {r.signal.shape}")
+        if (r.noise is None) != (a.noise is None):
+            self.v(f"C01:transform-noise-presence:{dom}", f"{name}('{dom}', {shift}): noise {'lost' if r.noise is None else 'appeared'}")
+        if getattr(r, "n_pol", 1) != getattr(a, "n_pol", 1):
+            self.v(f"C01:transform-npol:{dom}", f"{name}('{dom}', {shift}): n_pol {getattr(a, 'n_pol', 1)} -> {getattr(r, 'n_pol', 1)}")
         return r
 
     def transform(self, x):
@@ -642,6 +716,8 @@ class Eval:
             return self.getitem(a, slice(t[2], t[3], t[4]), "slice")
         if op == "copy":
             return self.copy(a, t[2])
+        if op == "transform":
+            return self.xform(a, t[2], bool(t[3]))
         raise ValueError(op)
 
 
@@ -774,8 +850,9 @@ def slice_len(n, a, b, c):
 
 
 class ProgGen:
-    def __init__(self, rng, tier, cls, layout, n, maxlen):
+    def __init__(self, rng, tier, cls, layout, n, maxlen, xf=0.0):
         self.rng, self.tier, self.cls, self.layout, self.n, self.maxlen = rng, tier, cls, layout, n, maxlen
+        self.xf = xf           # probability of a domain-transform node
         self.leaves = []       # (ctor, len)
         self.budget = 40 if tier == "quick" else 70     # node budget
 
@@ -809,6 +886,12 @@ class ProgGen:
         self.budget -= 1
         if depth <= 0 or self.budget <= 0 or rng.random() < 0.08:
             return self.leaf(L)
+        if self.xf and rng.random() < self.xf:
+            t, bt = self.gen(depth - 1, L)
+            dom = rng.choice(["w", "f", "t", "t"])
+            if dom != "t" and bt * L > MAXMAG:
+                dom = "t"
+            return ["transform", t, dom, rng.random() < 0.5], (bt if dom == "t" else bt * L)
         r = rng.random()
         if r < 0.36:
             op = rng.choice(BINOPS)
@@ -872,7 +955,9 @@ class ProgGen:
 
 def spoil(rng, tree, n):
     """wrap a valid program in one deliberately failing / boundary operation"""
-    k = rng.randint(0, 7)
+    k = rng.randint(0, 8)
+    if k == 8:
+        return ["transform", tree, rng.choice(["x", "W", "time", ""]) or "x", rng.random() < 0.5]
     if k == 0:
         return ["slice", tree, rng.randint(0, n), rng.randint(-n, 0) if rng.random() < 0.5 else 0, None]   # mostly empty
     if k == 1:
@@ -898,10 +983,12 @@ def gen_program(rng, tier, depth):
     cls, layout = rng.choice([("E", 1), ("E", 1), ("O", 1), ("O", 2), ("O", 2)])
     n = rng.choice(LENS_Q if tier == "quick" or rng.random() < 0.8 else LENS_T)
     maxlen = max(n + 6, 17) if n <= 33 else n + 4
-    pg = ProgGen(rng, tier, cls, layout, n, maxlen)
-    tree, _ = pg.gen(depth, n)
+    xf = 0.18 if rng.random() < 0.3 else 0.0
+    pg = ProgGen(rng, tier, cls, layout, n, maxlen, xf)
+    tree, bound = pg.gen(depth, n)
+    # magnitude bound of every intermediate value (wrappers added below at most multiply by a leaf): float tolerance
     case = {"kind": "prog", "cls": cls, "layout": layout, "n": n, "depth": depth,
-            "leaves": [c for c, _ in pg.leaves], "expr": tree}
+            "leaves": [c for c, _ in pg.leaves], "expr": tree, "scale": (2 * bound * 9 + 9) * maxlen}
     r = rng.random()
     if r < 0.10:
         case["expr"] = spoil(rng, tree, n)
@@ -1060,7 +1147,15 @@ def run_impl(case):
                 x = ev.run(env, case["expr"])
                 res["status"] = "ok"
                 try:
-                    res["final"] = canon(snap(x))
+                    sn = snap(x)
+                    if has_transform(case["expr"]) or any(has_transform(["mk", c]) for c in case["leaves"]):
+                        res["final_f"] = {"cls": {"electrical_signal": "E", "optical_signal": "O"}.get(sn[0], sn[0]),
+                                          "npol": sn[1], "tag": sn[2],
+                                          "sig": [[[float(a), float(b)] for a, b in r] for r in sn[3]],
+                                          "noise": None if sn[4] is None else [[[float(a), float(b)] for a, b in r] for r in sn[4]]}
+                        res["final"] = "float"
+                    else:
+                        res["final"] = canon(sn)
                 except ArithmeticError as e:
                     res["final"] = "unrepresentable " + str(e)
                 if not contract(x, type(x).__name__):
@@ -1085,7 +1180,8 @@ def run_impl(case):
 def model_requests(case, res):
     if not (all(modelable(["mk", c]) for c in case["leaves"]) and modelable(case["expr"])):
         return []
-    reqs = ["container.eval " + " ".join([str(len(case["leaves"]))] + [enc_expr(["mk", c]) for c in case["leaves"]]
+    cmd = "container.evalf " if has_transform(case["expr"]) else "container.eval "
+    reqs = [cmd + " ".join([str(len(case["leaves"]))] + [enc_expr(["mk", c]) for c in case["leaves"]]
                                          + [enc_expr(case["expr"])])]
     if case["kind"] == "slice" and "triple" in case:
         a, b, c = case["triple"]
@@ -1093,10 +1189,56 @@ def model_requests(case, res):
     return reqs
 
 
+def parse_evalf(reply):
+    """`ok <cls> <npol> <tag> <nrows> (<n> (<re bits> <im bits>)*n)*nrows (nonoise | noise <rows>)` -> dict"""
+    from harness.common.wire import Toks
+    t = Toks(reply)
+    if t.tok() != "ok":
+        return None
+    out = {"cls": t.tok(), "npol": t.nat(), "tag": t.tok()}
+
+    def rows():
+        k = t.nat()
+        return [[[t.f(), t.f()] for _ in range(t.nat())] for _ in range(k)]
+    out["sig"] = rows()
+    out["noise"] = rows() if t.tok() == "noise" else None
+    return out
+
+
+def compare_float(case, res, reply):
+    """transform programs: class, n_pol, dtype kind, row count, lengths, noise presence exactly; sample values to
+    1e-9 * (bound on every intermediate magnitude) * N  (both sides are IEEE doubles; the model sums the DFT naively)"""
+    want = res["final_f"]
+    got = parse_evalf(reply)
+    if got is None:
+        return [f"model says {reply[:120]!r}, implementation returned an object"]
+    out = []
+    for k in ("cls", "npol", "tag"):
+        if got[k] != want[k]:
+            out.append(f"{k}: model {got[k]!r}, implementation {want[k]!r}")
+    tol = 1e-9 * case.get("scale", 1e6) + 1e-12
+    for part in ("sig", "noise"):
+        a, b = got[part], want[part]
+        if (a is None) != (b is None):
+            out.append(f"{part} presence: model {a is not None}, implementation {b is not None}")
+            continue
+        if a is None:
+            continue
+        if [len(r) for r in a] != [len(r) for r in b]:
+            out.append(f"{part} shape: model {[len(r) for r in a]}, implementation {[len(r) for r in b]}")
+            continue
+        worst = max((max(abs(p[0] - q[0]), abs(p[1] - q[1])) for x, y in zip(a, b) for p, q in zip(x, y)), default=0.0)
+        if not worst <= tol:
+            out.append(f"{part} values differ by {worst:.3e} > {tol:.3e}")
+    return out
+
+
 def compare(case, res, reqs, replies):
     if not reqs:
         return []
     out = []
+    if res["status"] == "ok" and res.get("final") == "float":
+        return compare_float(case, res, replies[0])
     if res["status"] == "ok":
         want = res["final"]
     elif res["status"] == "err":
@@ -1150,7 +1292,7 @@ def features(case, res):
 def _ops(t, acc):
     acc.append(t[0])
     for x in t[1:3]:
-        if isinstance(x, list) and x and isinstance(x[0], str) and x[0] in ("var", "mk", "idx", "slice", "copy") + BINOPS + RAWOPS:
+        if isinstance(x, list) and x and isinstance(x[0], str) and x[0] in ("var", "mk", "idx", "slice", "copy", "transform") + BINOPS + RAWOPS:
             _ops(x, acc)
     return acc
 
